@@ -481,8 +481,17 @@ theorem transferLockCore_gstep {s s' : State} {q c n nt : Nat} {o : SyncOwner} {
         | some r =>
           cases r with
           | none =>
-            simp only [he, Option.some.injEq, Prod.mk.injEq] at h
-            rw [← h.1]; exact GStep.refl hinv
+            simp only [he] at h
+            by_cases hcn : c = nt'
+            · simp only [hcn, if_true, Option.some.injEq, Prod.mk.injEq] at h
+              rw [← h.1]; exact GStep.refl hinv
+            · simp only [hcn, if_false] at h
+              cases ha : afterTransfer s q nt' with
+              | none => simp [ha] at h
+              | some s7 =>
+                simp only [ha, Option.some.injEq, Prod.mk.injEq] at h
+                rw [← h.1]
+                exact afterTransfer_gstep hinv ha
           | some p =>
             obtain ⟨s4, ch⟩ := p
             simp only [he] at h
